@@ -88,6 +88,9 @@ var c10Files = map[string]string{
 	// program that only READS those names, in every kind of scope: nothing the first one defined is visible in the second, whatever ran before
 	// one static style text merged with bound styles that do / do not override its declarations, from render to render
 	"stylecache.vuego": `<div style="color:red;margin:0" :style="extra">x</div><p style="color:red;margin:0" v-show="d">y</p>`,
+	// :class / :style / an ordinary attribute bound to a VARIABLE that holds a map with many entries: whatever is printed for it is printed
+	// in one order, render after render (a Go map has no order of its own)
+	"mapbound.vuego": `<div :class="cls" :style="sty" :data-m="cls">x</div><p :class="nested.cls" :title="sty">y</p><i v-for="(k, v) in cls">{{ k }}={{ v }};</i><u>{{ cls }}|{{ sty }}</u>`,
 	"rows.vuego": `<i v-for="r in rows">{{ r.label }}|{{ r.count }};</i><b>{{ one.label }}|{{ one.count }}</b>`,
 	"leaksrc.vuego": `<template canary="CANARY-7f3a" other="x"></template><ul><li v-for="p in items"><template canary="CANARY-7f3a" pp="{{ p }}"></template>{{ p }}{{ canary }}</li></ul>` +
 		`<template include="leakcomp.vuego" :canary3="'CANARY-7f3a'"></template><div v-for="(i, p) in items"><template :canary2="'CANARY-7f3a'"></template><b>{{ canary2 }}</b></div>`,
@@ -136,6 +139,17 @@ func c10Progs() []c10Prog {
 		return func() map[string]any { return map[string]any{"extra": extra, "d": show} }
 	}
 	out = append(out,
+		c10Prog{"mapbound", "mapbound.vuego", func() map[string]any {
+			cls := map[string]any{}
+			sty := map[string]string{}
+			flags := map[string]bool{}
+			for _, k := range []string{"active", "big", "card", "dark", "error", "flat", "ghost", "hover", "info", "jumbo", "keyed", "light"} {
+				cls[k] = true
+				sty[k+"Width"] = k + "px"
+				flags[k] = true
+			}
+			return map[string]any{"cls": cls, "sty": sty, "nested": map[string]any{"cls": flags}}
+		}, ""},
 		c10Prog{"stylecache/add", "stylecache.vuego", sc("padding:1px", true), "<div style=\"color:red;margin:0;padding:1px;\">x</div>\n<p style=\"color:red;margin:0\">y</p>\n"},
 		c10Prog{"stylecache/override", "stylecache.vuego", sc("color:blue", false), "<div style=\"color:blue;margin:0;\">x</div>\n<p style=\"color:red;margin:0;display:none;\">y</p>\n"},
 		c10Prog{"stylecache/both", "stylecache.vuego", sc("margin:9px;top:1px", true), "<div style=\"color:red;margin:9px;top:1px;\">x</div>\n<p style=\"color:red;margin:0\">y</p>\n"})
